@@ -398,3 +398,35 @@ Proof.
   exact (cube_is_expm_series (se2_hat tw) th i j se2_hat_cube1 se2_hat_cube2 Hi Hj).
 Qed.
 End SE2series.
+
+(* ===================================================================================================================
+   Non-unit generators: the exponential of the matrix W = theta * [u] itself (series at x = 1).
+   (theta A)^k = theta^k A^k, so  Sum_k (W^k)_ij / k!  is the same series as  Sum_k theta^k (A^k)_ij / k! .
+   =================================================================================================================== *)
+Lemma mmul33_scale_l (c : R) (A B : M33 R) : mmul33 Rops (mscale33 Rops c A) B = mscale33 Rops c (mmul33 Rops A B).
+Proof. lin_ring. Qed.
+Lemma mscale33_mscale (c d : R) (A : M33 R) : mscale33 Rops c (mscale33 Rops d A) = mscale33 Rops (c * d) A.
+Proof. lin_ring. Qed.
+Lemma mmul33_scale_r (c : R) (A B : M33 R) : mmul33 Rops A (mscale33 Rops c B) = mscale33 Rops c (mmul33 Rops A B).
+Proof. lin_ring. Qed.
+Lemma mscale33_one (A : M33 R) : mscale33 Rops 1 A = A.
+Proof. lin_ring. Qed.
+
+Lemma mpow33_scale (c : R) (A : M33 R) k : mpow33 (mscale33 Rops c A) k = mscale33 Rops (c ^ k) (mpow33 A k).
+Proof.
+  induction k as [|k IH]; cbn [mpow33 pow]; [symmetry; apply mscale33_one|].
+  rewrite IH, mmul33_scale_l, mmul33_scale_r, mscale33_mscale. reflexivity.
+Qed.
+
+Lemma skew3_scale (c : R) (u : V3 R) : skew3 Rops (vscale3 Rops c u) = mscale33 Rops c (skew3 Rops u).
+Proof. destruct u as [[u0 u1] u2]. autounfold with smlin. sm_simpl. tuple_eq ltac:(ring). Qed.
+
+Theorem rodrigues_is_exp_of_scaled_generator (u : V3 R) (th : R) (i j : nat) :
+  normsq3 Rops u = 1 -> (i < 3)%nat -> (j < 3)%nat ->
+  is_pseries (expm_coeff (skew3 Rops (vscale3 Rops th u)) i j) 1 (e33 (rodrigues_th Rops u th) i j).
+Proof.
+  intros Hu Hi Hj. apply is_pseries_R.
+  apply is_series_ext with (fun n => expm_coeff (skew3 Rops u) i j n * th ^ n).
+  - intro n. unfold expm_coeff. rewrite skew3_scale, mpow33_scale, e33_mscale, pow1. req. unfold Rdiv. ring.
+  - apply is_pseries_R. exact (rodrigues_is_expm_series u th i j Hu Hi Hj).
+Qed.
